@@ -147,6 +147,31 @@ def h_expect(env, route, words, spec, n, init, complex_coefs=False, ident=False,
     env.check_eq(val, exp, f"get_expectation_value[{route}] == <psi|H|psi> for words {words}")
 
 
+def h_expect_scan(env, route, words, spec, n):
+    """ONE backend object evaluating several operators in a row that share their Pauli words and differ in the coefficients
+    (an energy scan H0 + lambda V, a rescaled operator): every value belongs to the operator it was asked for"""
+    from tangelo.linq import Circuit
+    gates, params = build_gates(env, spec)
+    circ = Circuit(gates, n_qubits=n)
+    ops = []
+    for j in range(3):
+        op, terms = make_op(env, words, complex_coefs=False)
+        if j:
+            for i_, w in enumerate(list(op.terms)):
+                c = env.real(f"c{i_}_{j}", lo=-3, hi=3)
+                op.terms[w] = c
+                terms[w] = c
+        ops.append((op, dict(terms)))
+    try:
+        b = _backend(env, route)
+        vals = [b.get_expectation_value(op, circ) for op, _ in ops]
+    finally:
+        _restore()
+    st = oracle(spec, params, n, R.basis_state(n, 0))
+    for j, ((op, terms), val) in enumerate(zip(ops, vals)):
+        env.check_eq(val, R.expectation(st, n, terms), f"get_expectation_value[{route}] of operator #{j} (same words as the previous ones, other coefficients)")
+
+
 def h_variance(env, words, spec, n, complex_coefs=False, ident=False):
     from tangelo.linq import Circuit
     gates, params = build_gates(env, spec)
@@ -431,6 +456,10 @@ def shapes(tier, seed):
         out.append(Shape(f"expect/{routes[i % 2]}/multi/{i}_{nm}", h_expect,
                          dict(route=routes[i % 2], words=ws, spec=spec, n=nn, init=(i % 4 == 1), ident=(i % 3 == 0)), modules=MODS))
     for i, route in enumerate(routes):
+        out.append(Shape(f"expect/{route}/scan", h_expect_scan, dict(route=route, words=[[(0, "X")], [(0, "Z"), (1, "Y")], [(1, "Z")]], spec=PREPS[i], n=2),
+                         modules=MODS))
+        out.append(Shape(f"expect/{route}/complex-noconst", h_expect, dict(route=route, words=[[(0, "Y")], [(0, "Z"), (1, "X")]],
+                                                                          spec=PREPS[i + 1], n=2, init=False, complex_coefs=True, ident=False), modules=MODS))
         out.append(Shape(f"expect/{route}/complex", h_expect, dict(route=route, words=[[(0, "X")], [(0, "Z"), (1, "Y")]],
                                                                   spec=PREPS[i], n=2, init=True, complex_coefs=True, ident=True), modules=MODS))
         out.append(Shape(f"expect/{route}/emptycircuit", h_expect, dict(route=route, words=[[(0, "X"), (1, "Y")], [(1, "Z")]], spec=[], n=2,
